@@ -17,6 +17,7 @@ import (
 	"math/bits"
 	"strconv"
 	"testing"
+	"time"
 
 	"pgregory.net/rapid"
 	"verifharness/internal/pbt"
@@ -27,7 +28,7 @@ const rule = "case = (element kind, named or unnamed slice type, n, size>=1, off
 	"(Chunk, ChunkFunc, Windowed, WindowedFunc, Pairs, PairsFunc) are checked on each case against the " +
 	"definitions (piece count, piece lengths, piece i = s[i*size:...], window/pair i = s[i:i+size]; callbacks checked " +
 	"at the time of the call), input unchanged afterwards; a function is skipped (label skip:*) only when its " +
-	"result would have more than 2^16 pieces of a zero-size type; "
+	"result would have more than 2^20+16 pieces of a zero-size type; "
 
 const ntBase = "non-trivial = n mod size >= 2 or size > n (with n >= 1)"
 
@@ -57,7 +58,7 @@ var specEnum = pbt.Register(&pbt.Spec[Case]{
 			}
 		}
 	},
-	Run: Run, Exhaustive: true,
+	Run: Run, Exhaustive: true, Replicas: 4, ReplicaEvery: 8,
 })
 
 // ---------------------------------------------------------------- C13.rand
@@ -81,7 +82,7 @@ func genSize(t *rapid.T, n int) int {
 
 var specRand = pbt.Register(&pbt.Spec[Case]{
 	Property: "C13", Name: "C13.rand", Rule: "rapid: element kind drawn from all " + strconv.Itoa(len(allKinds)) + " kinds (int, string, float64 with NaN/-0, " +
-		"pointers with nils, non-comparable struct, 128-byte struct, uint8, interface values, five zero-size types), named or unnamed slice type, " +
+		"pointers with nils, non-comparable struct, 128-byte struct, 1040-byte struct, uint8, [3]uint8, int32, interface values, five zero-size types), named or unnamed slice type, " +
 		"n in 0..12 / 0..300 / 300..3000 (weights 4:5:1), size in 1..n+5 / 1..9 / n+-3 / n/2+-2 / n/k+-1 / MaxInt-0..n+2, offset 0..3, spare 0..4; " + rule + ntBase,
 	Gen: func(t *rapid.T) Case {
 		kind := rapid.SampledFrom(allKinds).Draw(t, "kind")
@@ -100,7 +101,7 @@ var specRand = pbt.Register(&pbt.Spec[Case]{
 		return Case{Kind: kind, Named: rapid.Bool().Draw(t, "named"), N: n, Size: genSize(t, n),
 			Front: rapid.IntRange(0, 3).Draw(t, "front"), Spare: rapid.IntRange(0, 4).Draw(t, "spare")}
 	},
-	Run: Run, Quick: 10000, Thorough: 100000,
+	Run: Run, Quick: 10000, Thorough: 100000, Replicas: 4, ReplicaEvery: 8,
 })
 
 // ---------------------------------------------------------------- C13.big
@@ -120,7 +121,7 @@ func isqrt(x int) int {
 func runBig(c Case) pbt.Outcome {
 	out := Run(c)
 	// non-trivial for this unit: some quantity of the case is beyond the small grid
-	out.NonTrivial = out.Violation == "" && (c.N >= 30 || c.Size >= 30)
+	out.NonTrivial = out.Violation == "" && (c.N >= 30 || c.Size >= 30 || c.Front+c.Spare > 1000)
 	return out
 }
 
@@ -128,9 +129,10 @@ var specBig = pbt.Register(&pbt.Spec[Case]{
 	Property: "C13", Name: "C13.big", Rule: "enumerated thresholds: for every T = 2^k+d, k in 5..13 (thorough 5..16), d in -2..2: " +
 		"(a) exactly T windows: size in {1,2,3,8,61}, n = T+size-1; (b) exactly T chunks: size in {1,2,3,7}, last chunk of length 1 and of length size; " +
 		"(c) n = T with size in {T/2-1,T/2,T/2+1,T-2,T-1,T,T+1,isqrt(T),isqrt(T)+1}; (d) size = T with n = q*T+r, q in 1..3, r in {0,1,2,T-1}; " +
+		"(f) n in {0,1,5,64,1000} x size in {1,3,n+1} inside a backing array with more than 1 MiB, 2 MiB, 4 MiB of unused capacity behind, in front of, or on both sides of the slice, for 8 element kinds; " +
 		"(e) every n in 0..2200 (thorough 0..20000) with size 1, i.e. every number of windows, chunks and pairs up to that bound, with int and with struct{} elements, and for the first quarter of that range also sizes 2, 3 and 128-byte elements (sizes 1, 2); " +
 		"int elements throughout, (a) size 2 and (b) size 3 also with 128-byte, uint8 and zero-size elements; window contents are compared in full up to 2^20 element " +
-		"comparisons per call and at 64 spread positions per window beyond; " + rule + "non-trivial = n >= 30 or size >= 30",
+		"comparisons per call and at 64 spread positions per window beyond; " + rule + "non-trivial = n >= 30 or size >= 30 or more than 1 MiB unused capacity",
 	Enum: func(shard, shards int, tier string, yield func(Case) bool) {
 		maxK := 13
 		if tier == "thorough" {
@@ -193,8 +195,35 @@ var specBig = pbt.Register(&pbt.Spec[Case]{
 				return
 			}
 		}
+		// (f) short slices inside a backing array with more than 1 MiB of unused capacity behind and/or in front of them
+		for ki, ks := range []struct {
+			kind string
+			size int // element size in bytes
+		}{{"", 8}, {"u8", 1}, {"b3", 3}, {"string", 16}, {"nc", 40}, {"wide", 128}, {"xwide", 1040}, {"iface", 16}} {
+			for bi, unused := range []int{1<<20 + 4096, 2 << 20, 4<<20 + 24} {
+				elems := unused/ks.size + 1
+				for ni, n := range []int{0, 1, 5, 64, 1000} {
+					for _, size := range []int{1, 3, n + 1} {
+						front, spare := 0, elems
+						switch (ki + bi + ni) % 3 {
+						case 1:
+							front, spare = elems, 0
+						case 2:
+							front, spare = elems/2, elems/2
+						}
+						cnt++
+						if shards > 1 && cnt%shards != shard {
+							continue
+						}
+						if !yield(Case{Kind: ks.kind, N: n, Size: size, Front: front, Spare: spare, Named: cnt%2 == 0}) {
+							return
+						}
+					}
+				}
+			}
+		}
 	},
-	Run: runBig, Exhaustive: true,
+	Run: runBig, Exhaustive: true, Replicas: 4, ReplicaEvery: 8,
 })
 
 // ---------------------------------------------------------------- C13.types
@@ -202,7 +231,7 @@ var specBig = pbt.Register(&pbt.Spec[Case]{
 var specTypes = pbt.Register(&pbt.Spec[Case]{
 	Property: "C13", Name: "C13.types", Rule: "exhaustive grid n in 0..20 x size in 1..23 (thorough: 0..48 x 1..51) for each of the " + strconv.Itoa(len(allKinds)) +
 		" element kinds: int, string (with \"\"), float64 (NaN, -0, +0 compared by bits), *int (with nil, compared by identity), non-comparable struct {id, func, slice}, " +
-		"128-byte struct, uint8, interface values (int, nil, string, non-comparable []int), and the zero-size types struct{}, [0]int, [0]func(), " +
+		"128-byte struct, 1040-byte struct, uint8, [3]uint8, int32, interface values (int, nil, string, non-comparable []int), and the zero-size types struct{}, [0]int, [0]func(), " +
 		"struct{[0]string; struct{}}, [3]struct{} (only counts and lengths can be checked for those); named and unnamed slice types alternate; " + rule + ntBase,
 	Enum: func(shard, shards int, tier string, yield func(Case) bool) {
 		maxN, maxS := 20, 23
@@ -219,7 +248,7 @@ var specTypes = pbt.Register(&pbt.Spec[Case]{
 			}
 		}
 	},
-	Run: Run, Exhaustive: true,
+	Run: Run, Exhaustive: true, Replicas: 4, ReplicaEvery: 8,
 })
 
 // ---------------------------------------------------------------- C13.zst
@@ -264,7 +293,8 @@ var specZst = pbt.Register(&pbt.Spec[Case]{
 	Property: "C13", Name: "C13.zst", Rule: "zero-size element types (struct{}, [0]int, [0]func(), struct{[0]string; struct{}}, [3]struct{}), whose slices can be up to MaxInt long without memory " +
 		"and whose elements all share one address; only counts and lengths of the pieces can be checked. Enumerated: n in 0..24 x size in 1..27 per type; " +
 		"n = 2^k+d (k in 8,15,16,24,25,31,32,33,52..55,60,62; d in -3..3), m*2^52+d (m in 3,5,7), MaxInt-0..6, each with chunk sizes n/q+e (q in 1,2,3,4,5,7,8,1000,1024,1025; e in -1..1), " +
-		"2^(k-1), 2^(k-2), 2^52, 2^53, MaxInt, MaxInt-1 and window sizes n-w (w in 0..3, 1023..1025, 5000). rapid: n = random bit length 1..63 with random lower bits or +-3 next to a power of two, " +
+		"2^(k-1), 2^(k-2), 2^52, 2^53, MaxInt, MaxInt-1 and window sizes n-w (w in 0..3, 1023..1025, 5000); n in {0,1,7,1000,2^16,2^32+1,2^61} x size in {1,3,n/2+1,n+1} with 2^20+1, 2^32, 2^61, MaxInt-n " +
+		"elements of unused capacity behind / in front of / around the slice. rapid: n = random bit length 1..63 with random lower bits or +-3 next to a power of two, " +
 		"size = n/q+e (q 1..3000), n-w (w 0..5000), or uniform in 1..n+5; " + rule + "non-trivial = n >= 2 and at least one of Chunk/Windowed/Pairs (with its Func variant) was evaluated",
 	Enum: func(shard, shards int, tier string, yield func(Case) bool) {
 		cnt := 0
@@ -283,6 +313,25 @@ var specZst = pbt.Register(&pbt.Spec[Case]{
 			for n := 0; n <= 24; n++ {
 				for size := 1; size <= 27; size++ {
 					if !emit(kind, n, size) {
+						return
+					}
+				}
+			}
+		}
+		// astronomically large unused capacity in front of / behind short and long slices
+		for _, n := range []int{0, 1, 7, 1000, 1 << 16, 1<<32 + 1, 1 << 61} {
+			for _, size := range []int{1, 3, n/2 + 1, n + 1} {
+				for vi, v := range []int{1<<20 + 1, 1 << 32, 1 << 61, math.MaxInt} {
+					v = min(v, math.MaxInt-n)
+					front, spare := 0, v
+					switch (vi + cnt) % 3 {
+					case 1:
+						front, spare = v, 0
+					case 2:
+						front, spare = v/2, v-v/2
+					}
+					cnt++
+					if !yield(Case{Kind: zstKinds[cnt%len(zstKinds)], N: n, Size: size, Front: front, Spare: spare, Named: cnt%4 < 2}) {
 						return
 					}
 				}
@@ -352,14 +401,14 @@ var specZst = pbt.Register(&pbt.Spec[Case]{
 		}
 		return c
 	},
-	Run: runZst, Quick: 3000, Thorough: 30000,
+	Run: runZst, Quick: 3000, Thorough: 30000, Replicas: 4, ReplicaEvery: 8,
 })
 
 // ---------------------------------------------------------------- C13.nested
 
 var specNested = pbt.Register(&pbt.Spec[Case]{
 	Property: "C13", Name: "C13.nested", Rule: "exhaustive grid n in 0..14 x size in 1..16 x inner size in 1..5 for element kinds int, non-comparable struct and struct{}: " +
-		"the callbacks of ChunkFunc, WindowedFunc and PairsFunc call all six functions again on the piece they were given (inner size) and on the whole input, every inner and outer " +
+		"the callbacks of ChunkFunc, WindowedFunc and PairsFunc call all six functions again on the piece they were given (inner size), on the whole input and on an independent second live slice (the two slices are used alternately), every inner and outer " +
 		"result is checked against the definitions; then Chunk, Windowed and Pairs results of the input are kept while the same functions run on a second, different slice " +
 		"and their result containers are overwritten by the caller, and all kept results are checked afterwards (a result must not depend on later calls); " + ntBase,
 	Enum: func(shard, shards int, tier string, yield func(Case) bool) {
@@ -375,7 +424,203 @@ var specNested = pbt.Register(&pbt.Spec[Case]{
 			}
 		}
 	},
-	Run: Run, Exhaustive: true,
+	Run: Run, Exhaustive: true, Replicas: 4, ReplicaEvery: 8,
+})
+
+// ---------------------------------------------------------------- C13.par
+
+var parProcs = []int{1, 2, 3, 5, 6, 7, 0}
+
+func runPar(c Case) pbt.Outcome {
+	out := Run(c)
+	out.NonTrivial = out.Violation == "" && !out.Skipped && c.N >= 200
+	return out
+}
+
+var specPar = pbt.Register(&pbt.Spec[Case]{
+	Property: "C13", Name: "C13.par", Rule: "large inputs under different numbers of processors: for every T = 2^k+d, k in 8..20 (thorough 8..22, above 2^20 with uint8 elements), d in -1..1, and for each of " +
+		"GOMAXPROCS = 1, 2, 3, 5, 6, 7 and the machine's default, set for the duration of the case: (a) n = T+1, size 2 (T pairs, T windows, T/2+1 chunks) and (b) n = T, size 1 (T chunks, T windows, T-1 pairs), int elements; " +
+		"with one of those processor counts in rotation: (a) with 128-byte, 1040-byte, uint8, [3]uint8, string and zero-size elements (128-byte up to k=16, 1040-byte up to k=13), " +
+		"(c) n = T with window/chunk size T/2 and isqrt(T), (d) exactly T chunks of size 3 and exactly T windows of size 7; every result is looked at the moment the function returns " +
+		"(last piece first, then 64 pieces spread over the result backwards, then all pieces in order); " + rule + "non-trivial = n >= 200",
+	Enum: func(shard, shards int, tier string, yield func(Case) bool) {
+		maxK := 20
+		if tier == "thorough" {
+			maxK = 22
+		}
+		cnt := 0
+		emit := func(kind, fn string, n, size, procs int) bool {
+			if n < 0 || size < 1 {
+				return true
+			}
+			cnt++
+			if shards > 1 && cnt%shards != shard {
+				return true
+			}
+			return yield(Case{Kind: kind, N: n, Size: size, Fn: fn, Procs: procs, Front: cnt % 3, Spare: cnt % 2, Named: cnt%4 < 2})
+		}
+		rot := 0
+		next := func() int { rot++; return parProcs[rot%len(parProcs)] }
+		for k := maxK; k >= 8; k-- { // biggest first: the shards finish together
+			for d := -1; d <= 1; d++ {
+				T := 1<<k + d
+				base := ""
+				if k > 20 {
+					base = "u8"
+				}
+				for _, procs := range parProcs {
+					if !emit(base, "", T+1, 2, procs) || !emit(base, "", T, 1, procs) {
+						return
+					}
+				}
+				for _, kind := range []string{"wide", "xwide", "u8", "b3", "string", "z-struct"} {
+					if kind == "wide" && k > 16 || kind == "xwide" && k > 13 || kind == "string" && k > 18 {
+						continue
+					}
+					if !emit(kind, "", T+1, 2, next()) {
+						return
+					}
+				}
+				if !emit(base, "", T, T/2, next()) || !emit(base, "", T, isqrt(T), next()) || !emit(base, "c", 3*T, 3, next()) || !emit(base, "w", T+6, 7, next()) {
+					return
+				}
+			}
+		}
+	},
+	Run: runPar, Exhaustive: true,
+})
+
+// ---------------------------------------------------------------- C13.gc
+
+var realKinds = []struct {
+	kind  string
+	bytes int
+}{{"", 8}, {"string", 16}, {"f64", 8}, {"ptr", 8}, {"nc", 40}, {"wide", 128}, {"xwide", 1040}, {"u8", 1}, {"b3", 3}, {"i32", 4}, {"iface", 16}}
+
+var specGC = pbt.Register(&pbt.Spec[Case]{
+	Property: "C13", Name: "C13.gc", Rule: "inputs that only the callee refers to, and a garbage collection in the middle of the call: the input slice is built inside the call expression from a formula " +
+		"(the oracle recomputes the expected elements, nothing of the harness refers to the input's memory), callback number `at` of ChunkFunc / WindowedFunc / PairsFunc runs runtime.GC() and then allocates " +
+		"3..256 arrays of exactly the input's size filled with other elements; the results of Chunk / Windowed / Pairs on such inputs are looked at after a collection and the same allocations. " +
+		"Enumerated: 11 element kinds with real size x input size about 48 B, 1 KB, 8 KiB (small objects), 40 KiB, 256 KiB, 1 MiB (large objects) x (size, at) in {(1,0), (3,1), (n/2,0), (2,n/3)}; " +
+		"rapid: kind, input bytes log-uniform in 16 B..512 KiB, size 1..9 / 1..n+2 / n/2, at = 0, 1, or uniform, front 0..3, spare 0..4; " +
+		"non-trivial = at least one callback happens after the collection",
+	Enum: func(shard, shards int, tier string, yield func(Case) bool) {
+		cnt := 0
+		for _, b := range []int{48, 1000, 8 << 10, 40 << 10, 256 << 10, 1<<20 + 4096} {
+			for _, rk := range realKinds {
+				n := max(2, b/rk.bytes)
+				for _, sa := range [][2]int{{1, 0}, {3, 1}, {max(1, n/2), 0}, {2, n / 3}} {
+					cnt++
+					if shards > 1 && cnt%shards != shard {
+						continue
+					}
+					if !yield(Case{Mode: "gc", Kind: rk.kind, N: n, Size: sa[0], At: sa[1], Front: cnt % 2, Spare: cnt % 3, Named: cnt%4 < 2}) {
+						return
+					}
+				}
+			}
+		}
+	},
+	Gen: func(t *rapid.T) Case {
+		rk := rapid.SampledFrom(realKinds).Draw(t, "kind")
+		bytes := 1 << rapid.IntRange(4, 18).Draw(t, "log-bytes")
+		bytes += rapid.IntRange(0, bytes).Draw(t, "bytes-low")
+		n := max(1, bytes/rk.bytes)
+		var size int
+		switch rapid.IntRange(0, 3).Draw(t, "size-class") {
+		case 0, 1:
+			size = rapid.IntRange(1, 9).Draw(t, "size-small")
+		case 2:
+			size = rapid.IntRange(1, n+2).Draw(t, "size")
+		default:
+			size = max(1, n/2)
+		}
+		at := rapid.IntRange(0, 1).Draw(t, "at-early")
+		if rapid.IntRange(0, 2).Draw(t, "at-class") == 0 {
+			at = rapid.IntRange(0, n).Draw(t, "at")
+		}
+		return Case{Mode: "gc", Kind: rk.kind, N: n, Size: size, At: at, Named: rapid.Bool().Draw(t, "named"),
+			Front: rapid.IntRange(0, 3).Draw(t, "front"), Spare: rapid.IntRange(0, 4).Draw(t, "spare")}
+	},
+	Run: Run, Quick: 120, Thorough: 1500, Replicas: 4, ReplicaEvery: 8,
+})
+
+// ---------------------------------------------------------------- C13.abort
+
+var specAbort = pbt.Register(&pbt.Spec[Case]{
+	Property: "C13", Name: "C13.abort", Rule: "exhaustive grid n in 0..12 x size in 1..14 x aborted callback in {first, second, last} x {panic recovered by the caller, runtime.Goexit of the calling goroutine} " +
+		"for element kinds int, non-comparable struct and struct{}: a ChunkFunc / WindowedFunc / PairsFunc call is aborted by its callback (the callbacks up to there are checked), then all six functions are " +
+		"checked on the same slice and on an independent second slice (an aborted call must not leave anything behind that later calls see); non-trivial = at least one call was aborted",
+	Enum: func(shard, shards int, tier string, yield func(Case) bool) {
+		for _, kind := range []string{"", "nc", "z-struct"} {
+			for n := 0; n <= 12; n++ {
+				for size := 1; size <= 14; size++ {
+					for _, at := range []int{0, 1, -1} {
+						for v := 0; v <= 1; v++ {
+							if !yield(Case{Mode: "abort", Kind: kind, N: n, Size: size, At: at, Var: v, Front: n % 2, Spare: size % 2, Named: (n+size)%2 == 0}) {
+								return
+							}
+						}
+					}
+				}
+			}
+		}
+	},
+	Run: Run, Exhaustive: true, Replicas: 4, ReplicaEvery: 8,
+})
+
+// ---------------------------------------------------------------- C13.repeat
+
+var specRepeat = pbt.Register(&pbt.Spec[Case]{
+	Property: "C13", Name: "C13.repeat", Rule: "the same cheap calls repeated 2^16+40 times (past every 8- and 16-bit counter of calls, callbacks or pieces), alternately on two live slices, all six functions " +
+		"checked in full every time, and the results of the very first calls checked again at the end: (n, size) in {(2,1), (5,2), (3,5)} for element kinds int, non-comparable struct and struct{}; " +
+		"non-trivial = more than 2^16 repetitions",
+	Enum: func(shard, shards int, tier string, yield func(Case) bool) {
+		cnt := 0
+		for _, kind := range []string{"", "nc", "z-struct"} {
+			for _, ns := range [][2]int{{2, 1}, {5, 2}, {3, 5}} {
+				cnt++
+				if shards > 1 && cnt%shards != shard {
+					continue
+				}
+				if !yield(Case{Mode: "repeat", Kind: kind, N: ns[0], Size: ns[1], Reps: 1<<16 + 40, Front: cnt % 2, Spare: cnt % 3, Named: cnt%2 == 0}) {
+					return
+				}
+			}
+		}
+	},
+	Run: Run, Exhaustive: true, Replicas: 4, ReplicaEvery: 8,
+})
+
+// ---------------------------------------------------------------- C13.wrap32 (thorough only)
+
+var specWrap32 = pbt.Register(&pbt.Spec[Case]{
+	Property: "C13", Name: "C13.wrap32", Rule: "past 2^32 (thorough tier only; one case per process): (a) 2^32+40 repetitions of one call on the same two-element int slice with size 1, each checked, for each of the " +
+		"six functions (uint8 elements for Pairs); (b) a single ChunkFunc / WindowedFunc / PairsFunc call that has to make 2^32+2 callbacks: []struct{} of length 2^32+2 or 2^32+3, size 1, and WindowedFunc with " +
+		"window size 2^61 on a slice of length 2^61+2^32+1; callbacks are counted and their lengths checked; non-trivial = more than 2^32 repetitions or pieces",
+	Enum: func(shard, shards int, tier string, yield func(Case) bool) {
+		cases := []Case{
+			{Mode: "wrap", Fn: "c", N: 2, Size: 1, Reps: 1<<32 + 40},
+			{Mode: "wrap", Fn: "w", N: 2, Size: 1, Reps: 1<<32 + 40},
+			{Mode: "wrap", Fn: "p", N: 2, Size: 1, Reps: 1<<32 + 40},
+			{Mode: "wrap", Fn: "C", N: 2, Size: 2, Reps: 1<<32 + 40},
+			{Mode: "wrap", Fn: "W", N: 2, Size: 2, Reps: 1<<32 + 40},
+			{Mode: "wrap", Fn: "P", N: 2, Size: 1, Reps: 1<<32 + 40, Kind: "u8"},
+			{Mode: "wrap", Fn: "c", N: 1<<32 + 2, Size: 1, Kind: "z-struct"},
+			{Mode: "wrap", Fn: "w", N: 1<<32 + 2, Size: 1, Kind: "z-arr0"},
+			{Mode: "wrap", Fn: "p", N: 1<<32 + 3, Size: 1, Kind: "z-struct"},
+			{Mode: "wrap", Fn: "w", N: 1<<61 + 1<<32 + 1, Size: 1 << 61, Kind: "z-struct", Named: true},
+		}
+		for i, c := range cases {
+			if shards > 1 && i%shards != shard {
+				continue
+			}
+			if !yield(c) {
+				return
+			}
+		}
+	},
+	Run: Run, Exhaustive: true, CaseCPU: 20 * time.Minute,
 })
 
 func TestC13Enum(t *testing.T)   { pbt.Check(t, specEnum) }
@@ -384,4 +629,9 @@ func TestC13Big(t *testing.T)    { pbt.Check(t, specBig) }
 func TestC13Types(t *testing.T)  { pbt.Check(t, specTypes) }
 func TestC13Zst(t *testing.T)    { pbt.Check(t, specZst) }
 func TestC13Nested(t *testing.T) { pbt.Check(t, specNested) }
+func TestC13Par(t *testing.T)    { pbt.Check(t, specPar) }
+func TestC13Gc(t *testing.T)     { pbt.Check(t, specGC) }
+func TestC13Abort(t *testing.T)  { pbt.Check(t, specAbort) }
+func TestC13Repeat(t *testing.T) { pbt.Check(t, specRepeat) }
+func TestC13Wrap32(t *testing.T) { pbt.Check(t, specWrap32) }
 func TestReplay(t *testing.T)    { pbt.Replay(t) }
